@@ -15,6 +15,11 @@ func init() {
 	vu.Register("C06", &vu.Prop{
 		Gen: func(r *rand.Rand, n int, tier string, emit func(...string)) {
 			for i := 0; i < n; {
+				if r.Intn(5) == 0 { // one Index for two epochs with different validator sets
+					emit(c05TwoEpochs(r, tier)...)
+					i++
+					continue
+				}
 				d := c05PickDag(r, tier, i+1) // i+1: forks in (almost) every DAG
 				for mode := 0; mode < 3 && i < n; mode++ {
 					order := c05Order(r, d, mode)
